@@ -19,8 +19,8 @@ Reading guide
   transparent for every history (F-C06b, repaired by 9c714c3; the old key is kept as a decided regression fact).
 * §6 `route_url` = scheme://authority ++ `route_path`.
 * §7 **the round trip**: for admissible patterns and values the generated path, decoded the way a server decodes
-  it, is matched by the same pattern and the dictionary is the supplied values — *partial*: a `*remainder` value must
-  not contain a line feed (F-C06a, the C06 face of F-C01b); full for patterns without `*remainder`.
+  it, is matched by the same pattern and the dictionary is the supplied values — full, for every admissible input
+  (a `*remainder` may hold line feeds and any other control character since fc43a19: `(?s:.*?)`).
 * §8 the excluded points of the domain, each decided: the round trip does fail there.
 -/
 namespace Pyr.UrlGen
@@ -305,13 +305,12 @@ theorem admissible_reading_unique (u : Ucd) (toks : List Tok) (kw : Kw) (ha : Ad
     (hs : Splits u (fun _ => True) toks I e) : e = E :=
   unique_reading u _ kw toks I E e ha.2.2.1 hi he hs
 
-/-- **`gen_match_roundtrip` (partial).**  For every admissible pattern and dictionary whose `*remainder` value has no
-line feed: generation succeeds, and the generated path — percent-decoded to bytes and read as UTF-8 the way a server
-and `request.path_info` do — is matched by the same pattern, with a match dictionary equal to the supplied values
-(`{name}`: the value's text; `*name`: the elements of a sequence, or `split_path_info` of a string).
-Missing for the full statement: `*name` is compiled to `.*?` and `.` excludes LF (F-C06a / F-C01b). -/
-theorem gen_match_roundtrip_partial (u : Ucd) (toks : List Tok) (kw : Kw) (ha : Admissible toks kw)
-    (hlf : restNoLF kw toks = true) :
+/-- **`gen_match_roundtrip`.**  For every admissible pattern and dictionary: generation succeeds, and the generated
+path — percent-decoded to bytes and read as UTF-8 the way a server and `request.path_info` do — is matched by the same
+pattern, with a match dictionary equal to the supplied values (`{name}`: the value's text; `*name`: the elements of a
+sequence, or `split_path_info` of a string).  No restriction on the characters of any value: line feeds and other
+control characters in a `*remainder` included (the former exclusion, F-C06a / F-C01b, was repaired by fc43a19). -/
+theorem gen_match_roundtrip (u : Ucd) (toks : List Tok) (kw : Kw) (ha : Admissible toks kw) :
     ∃ p E, generate toks kw = .ok p ∧ expectEnv kw toks = some E ∧
       (serverDecode p).bind (matchToks u toks) = some E := by
   obtain ⟨hlead, hn, hs, hk⟩ := ha
@@ -320,9 +319,9 @@ theorem gen_match_roundtrip_partial (u : Ucd) (toks : List Tok) (kw : Kw) (ha : 
   refine ⟨p, E, hp, he, ?_⟩
   rw [hd]
   simp only [Option.bind_some]
-  have hsp := intended_splits u kw toks I E hs hlf hi he
+  have hsp := intended_splits u kw toks I E hs hi he
   have hdef : defaultOnly toks = true := by
-    clear hsp hd hp hi he hlead hn hk hlf
+    clear hsp hd hp hi he hlead hn hk
     induction toks with
     | nil => rfl
     | cons t ts ih =>
@@ -340,27 +339,20 @@ theorem gen_match_roundtrip_partial (u : Ucd) (toks : List Tok) (kw : Kw) (ha : 
   | nil => rw [hm] at hmem; simp at hmem
   | cons e0 rest =>
     have h0 : e0 ∈ matchAll u .endOfString toks I := by rw [hm]; simp
-    have hs0 := (matchAll_sound u toks I e0 h0).mono (Q := fun _ => True) (fun _ _ => trivial)
+    have hs0 := matchAll_sound u toks I e0 h0
     rw [unique_reading u _ kw toks I E e0 hs hi he hs0]
     rfl
 
-/-- **`gen_match_roundtrip` for patterns without `*remainder`: full.** -/
-theorem gen_match_roundtrip_no_rest (u : Ucd) (toks : List Tok) (kw : Kw) (ha : Admissible toks kw)
-    (hnr : hasRest toks = false) :
-    ∃ p E, generate toks kw = .ok p ∧ expectEnv kw toks = some E ∧
-      (serverDecode p).bind (matchToks u toks) = some E :=
-  gen_match_roundtrip_partial u toks kw ha (restNoLF_of_noRest kw toks hnr)
-
-/-- **The same through `route_path` and a mounted application (partial, as above).**  `route_path` without extra
+/-- **The same through `route_path` and a mounted application.**  `route_path` without extra
 elements, with any query string and fragment (each empty or introduced by its delimiter) and any `SCRIPT_NAME`:
 the client/server cut the target at the first `?`/`#`, percent-decode, take the `SCRIPT_NAME` bytes off — and the
 route matches what is left with the supplied values. -/
-theorem request_roundtrip_partial (u : Ucd) (script : Text) (toks : List Tok) (kw : Kw) (qs frag : Text)
-    (ha : Admissible toks kw) (hlf : restNoLF kw toks = true)
+theorem request_roundtrip (u : Ucd) (script : Text) (toks : List Tok) (kw : Kw) (qs frag : Text)
+    (ha : Admissible toks kw)
     (hq : qs = [] ∨ qs.head? = some '?') (hf : frag = [] ∨ frag.head? = some '#') :
     ∃ target E, routePath script toks [] kw qs frag = .ok target ∧ expectEnv kw toks = some E ∧
       requestMatch u toks script target = some E := by
-  obtain ⟨p, E, hp, he, hm⟩ := gen_match_roundtrip_partial u toks kw ha hlf
+  obtain ⟨p, E, hp, he, hm⟩ := gen_match_roundtrip u toks kw ha
   obtain ⟨hlead, hn, hs, hk⟩ := ha
   obtain ⟨I, E', hi, he'⟩ := sepOk_defined kw toks hs
   obtain ⟨p', hp', hd⟩ := gen_decodes toks kw I hn hk hi (intended_lead kw toks I hlead hi)
@@ -412,16 +404,15 @@ theorem compiled_pattern_shape (u : Ucd) (lib : Lib) (route : Text) (toks : List
     (h : compileRoute u lib route = .ok toks) : leadSlash toks = true ∧ namesPlain toks = true :=
   ⟨compile_lead_slash u lib route toks h, compile_names_plain u lib route toks h⟩
 
-/-- **The round trip stated on the pattern text (partial, as above).**  For every pattern text `_compile_route`
+/-- **The round trip stated on the pattern text.**  For every pattern text `_compile_route`
 accepts: if the values are admissible for its tokens and every entry of the dictionary can be quoted, the path
 generated from the compiled pattern is matched by it with the supplied values. -/
-theorem pattern_roundtrip_partial (u : Ucd) (lib : Lib) (route : Text) (toks : List Tok) (kw : Kw)
-    (hc : compileRoute u lib route = .ok toks) (hs : sepOk kw toks = true) (hk : kwOk (remName toks) kw = true)
-    (hlf : restNoLF kw toks = true) :
+theorem pattern_roundtrip (u : Ucd) (lib : Lib) (route : Text) (toks : List Tok) (kw : Kw)
+    (hc : compileRoute u lib route = .ok toks) (hs : sepOk kw toks = true) (hk : kwOk (remName toks) kw = true) :
     ∃ p E, generate toks kw = .ok p ∧ expectEnv kw toks = some E ∧
       (serverDecode p).bind (matchToks u toks) = some E :=
-  gen_match_roundtrip_partial u toks kw
-    ⟨compile_lead_slash u lib route toks hc, compile_names_plain u lib route toks hc, hs, hk⟩ hlf
+  gen_match_roundtrip u toks kw
+    ⟨compile_lead_slash u lib route toks hc, compile_names_plain u lib route toks hc, hs, hk⟩
 
 /-- An `int` is always a legal `{name}` value: `str(i)` is never empty and has no `/`. -/
 theorem int_values_in_domain (i : Int) : phValueOk (.one (.int i)) = true := int_value_ok i
@@ -435,8 +426,9 @@ example : compileRoute Ucd.ascii [] "archive/{year}-{month}/*rest".toList =
 example : Admissible [.lit "/a b/".toList, .ph "x".toList Rx.notSlashPlus, .lit "/é/".toList, .rest "rest".toList]
     [("x".toList, .one (.str "50% off?#;+é".toList)),
      ("rest".toList, .many [.str "p q".toList, .int 7, .bytes [0xc3, 0xa9]])] := by decide +kernel
-example : restNoLF [("rest".toList, KVal.many [.str "p q".toList, .int 7])] [.lit "/s/".toList, .rest "rest".toList] = true := by
-  decide
+/-- a remainder with LF, CR, NUL and DEL in it is admissible -/
+example : Admissible [.lit "/s/".toList, .rest "rest".toList]
+    [("rest".toList, .many [.str "a\nb".toList, .str "\r".toList, .str [Char.ofNat 0, Char.ofNat 127]])] := by decide +kernel
 /-- `/{year}-{a}-{b}` with dash-free values: admissible although the separator repeats -/
 example : Admissible [.lit "/".toList, .ph "year".toList Rx.notSlashPlus, .lit "-".toList, .ph "a".toList Rx.notSlashPlus,
       .lit "-".toList, .ph "b".toList Rx.notSlashPlus]
@@ -492,13 +484,16 @@ theorem separator_in_value_breaks_roundtrip :
       (serverDecode "/x-y-z".toList).bind (matchToks Ucd.ascii toks) =
         some [("a".toList, .str "x-y".toList), ("b".toList, .str "z".toList)] := by decide +kernel
 
-/-- **Recorded finding F-C06a** (why the central theorem is partial): an admissible remainder value with a line feed
-generates `/s/a%0Ab`, which its own route does not match. -/
-theorem rest_newline_breaks_roundtrip :
+/-- **Regression fact for the repaired F-C06a / F-C01b** (fc43a19): an admissible remainder value with a line feed
+generates `/s/a%0Ab`, the server decodes it to `/s/a⏎b`, and its own route matches it with the supplied value — with
+the remainder compiled to `.*?` (`Rx.lazyDotStar`, the code before the fix) the very same path had no match. -/
+theorem rest_newline_roundtrips :
     let toks := [Tok.lit "/s/".toList, .rest "rest".toList]
     let kw : Kw := [("rest".toList, .one (.str "a\nb".toList))]
-    Admissible toks kw ∧ restNoLF kw toks = false ∧ generate toks kw = .ok "/s/a%0Ab".toList ∧
+    Admissible toks kw ∧ generate toks kw = .ok "/s/a%0Ab".toList ∧
       serverDecode "/s/a%0Ab".toList = some "/s/a\nb".toList ∧
-      (serverDecode "/s/a%0Ab".toList).bind (matchToks Ucd.ascii toks) = none := by decide +kernel
+      (serverDecode "/s/a%0Ab".toList).bind (matchToks Ucd.ascii toks) = some [("rest".toList, .segs ["a\nb".toList])] ∧
+      expectEnv kw toks = some [("rest".toList, .segs ["a\nb".toList])] ∧
+      (Rx.run Ucd.ascii Rx.lazyDotStar "a\nb".toList).map (·.1) = [[], ['a']] := by decide +kernel
 
 end Pyr.UrlGen
